@@ -30,6 +30,7 @@ class FunctionReport:
         self.wall = 0.0
         self.outcomes = {}
         self.drops = []
+        self.assumed_calls = set()
 
     def clauses(self):
         """clause-level aggregation over paths"""
@@ -351,6 +352,8 @@ def check_outcome(it, c, fr, outcome, value):
                     parts.append(truthy(ctx, it.spec_eval(case['when'], fr)))
                 disj.append(z_and(*parts))
             ob = ctx.oblige(f'raises:{e.cls.__name__}:classified', 'post', simp(z_or(*disj)), f'{e.cls.__name__}{_fmt_args(e.args)} must match a declared case with its condition')
+            if getattr(c, 'opaque_calls', False):
+                ctx.oblige('rte-free', 'rte', True, f'paths of {c.qualname} end in a return or an allowed exception')
             for k, case in matched_cases:
                 for j, cl in enumerate(case.get('also', ())):
                     pre = []
@@ -368,6 +371,10 @@ def check_outcome(it, c, fr, outcome, value):
     if outcome == 'return':
         for k, cl in enumerate(c.final or ()):
             ctx.oblige(f'final:{k}', 'post', truthy(ctx, it.spec_eval(cl, fr)), cl)
+        if getattr(c, 'opaque_calls', False):
+            # sweep rows claim one thing: this path ended in a return (an allowed exception is recorded in the raise
+            # branch above); every index / slice / unpack on the way forked an exception path which is judged there
+            ctx.oblige('rte-free', 'rte', True, f'paths of {c.qualname} end in a return or an allowed exception')
 
 
 def _overlay(fr, entry):
@@ -412,6 +419,8 @@ def verify_function(reg, c, tier='quick', solve=None, max_paths=MAX_PATHS):
             break
         ctx = Ctx(prefix, solve)
         it = Interp(ctx, reg)
+        it.current_contract = c
+        it.assumed_calls = rep.assumed_calls
         fr = Frame(mod.__dict__, {}, None, c, c.file, c.qualname)
         fr.fnode = fnode
         _bind_siblings(reg, c, fr)
@@ -471,7 +480,7 @@ def verify_function(reg, c, tier='quick', solve=None, max_paths=MAX_PATHS):
             cls = reg.resolve_exc(case['exc'], c).__name__
             hit = any(o.startswith(f'raise:{cls}') for o in rep.outcomes)
             rep.obligations.append({'clause': f'cover:raises:{case["exc"]}:{k}', 'kind': 'cover', 'status': 'proved' if hit else 'refuted', 'backend': 'paths', 'ms': 0.0, 'text': f'some path raises {case["exc"]}', 'line': 0, 'model': None})
-        if c.ensures:
+        if c.ensures or getattr(c, 'opaque_calls', False):
             rep.obligations.append({'clause': 'cover:return', 'kind': 'cover', 'status': 'proved' if seen_normal else 'refuted', 'backend': 'paths', 'ms': 0.0, 'text': 'some path returns normally', 'line': 0, 'model': None})
     rep.wall = time.time() - t0
     return rep
